@@ -89,6 +89,7 @@ func (p *Parser) parseNotationInComments(notations []*ast.Comment, validOps map[
 				return logger.Errorf("%v: invalid ident", p.fset.Position(n.Pos()))
 			}
 			opts.Receiver = args[0]
+			opts.ReceiverPos = n.Pos()
 		case "reverse":
 			opts.Reverse = true
 			posReverse = n.Pos()
